@@ -9,6 +9,8 @@ mod collection;
 #[cfg(feature = "internals")]
 mod csvdec;
 #[cfg(feature = "internals")]
+mod directory;
+#[cfg(feature = "internals")]
 mod execstack;
 #[cfg(feature = "internals")]
 mod layout;
@@ -35,6 +37,8 @@ fn main() {
         "layout" => layout::main(rest),
         #[cfg(feature = "internals")]
         "execstack" => execstack::main(rest),
+        #[cfg(feature = "internals")]
+        "directory" => directory::main(rest),
         "sched" => sched::main(rest),
         "cancel" => sched::cancel_main(rest),
         #[cfg(feature = "internals")]
